@@ -425,9 +425,9 @@ int main(void)
 			size_t k;
 			run_case(lines[i]);
 			if (__lsan_do_recoverable_leak_check()) fputs(" !LEAK", stdout);
-			for (k = 0; k < nl; k++) __real_free(lines[k]);
-			__real_free(lines);
-			exit(0);
+			(void)k;
+			fflush(stdout);
+			_exit(0);	/* the leak verdict was taken above; pools are reachable, not leaked */
 		}
 		if (pid < 0) { printf("fork-failed\n"); continue; }
 		while (waitpid(pid, &st, 0) < 0) ;
